@@ -218,6 +218,22 @@ CLAIMED["C10"] = dict(
     technique="Lean 4 structural induction (ndindex) + product lemmas + Mathlib matrix exponential + table-driven correspondence",
     ref="DESIGN.md §5 C10")
 
+CLAIMED["C14"] = dict(
+    text="Lean 4 proof over the reals about the plan of _thermal_population (which energies, what is subtracted, where the block starts, "
+         "T=0 branch): at every positive temperature all exponents are <= 0 and one is exactly 0, hence for ANY implementation of exp "
+         "with exp(0)=1 and non-negative values (it may underflow anywhere) the normalisation is >= 1 - no 0/0 at any temperature "
+         "(no_zero_division), while the unshifted sum can be 0 (witness = the repaired defect); populations sum to one, their ratios "
+         "are exp(-(E_a-E_b)/kT) independent of the shift, T=0 puts all population on one state; a diagonal matrix of non-negative "
+         "populations, |d| rho |d| (impulsive excitation) and S^T rho S (another basis) are positive semidefinite. Tied to the code by "
+         "comparing the diagonal handed out with exp(plan)/sum for the strong-coupling case and by the oracle over 2-4 site aggregates "
+         "(site 0 not lowest, 700 1/cm gaps, with/without bath temperature and modes) x all condition types x temperature ladder "
+         "0..1000 K and None, requested inside and outside eigenbasis_of: finiteness, Hermiticity, positivity, unit trace, Boltzmann "
+         "populations (absolute 1e-12, log-space ratios where resolvable), T=0 = lowest state, same physical state in and out of a context.",
+    note="Lean kernel + standard axioms; numpy.exp and the final normalisation are applied by the harness to the exponents of the Lean "
+         "plan; floating-point behaviour beyond the abstract-exp argument is observed only.",
+    technique="Lean 4 real-analysis lemmas on the shifted Boltzmann algorithm + Mathlib PosSemidef + plan correspondence and oracle",
+    ref="DESIGN.md §5 C14")
+
 NOT_APPLICABLE = {}
 
 
